@@ -1,3 +1,3 @@
 From GoMC Require Import Base.Dec Model.C05 Model.C07.
 Require Import ExtrOcamlBasic.
-Extraction "c07_model.ml" run_flat pack pack_hdr unpack unpack_seq spec_frame_reader write32 len32.
+Extraction "c07_model.ml" run_flat pack pack_hdr unpack unpack_seq spec_frame_reader own_accepts write32 len32.
